@@ -18,7 +18,7 @@
    *struct, []struct, [N]struct); tags_wf f pfs - no explicitly empty format tag. *)
 From Coq Require Import List NArith ZArith.
 From Dials Require Import Base.Outcome Base.Runes Reflect.Ty Reflect.Ptrify Stack.Overlay Text.ParseText
-  Sources.Flatten Sources.Decoders Sources.DecodersSpec Sources.DecodersProofs Sources.DecodersFacts.
+  Sources.Flatten Sources.TimeText Sources.Decoders Sources.DecodersSpec Sources.DecodersProofs Sources.DecodersFacts.
 Import ListNotations.
 
 (* Each decoder returns exactly what the specification decoder returns: keys
@@ -30,8 +30,19 @@ Proof. exact decoders_agree_l. Qed.
 (* Same data, same config: without format-specific tags any two of the four
    decoders return the same outcome on every document tree. *)
 Theorem decoders_agree_all : forall f g d pfs,
-  dec_ok pfs = true -> no_fmt_fields pfs = true -> decode f d pfs = decode g d pfs.
+  dec_ok pfs = true -> no_fmt_fields pfs = true ->
+  time_free pfs = true \/ no_time_str d = true ->
+  decode f d pfs = decode g d pfs.
 Proof. exact decoders_agree_all_l. Qed.
+
+(* The timestamp guard is not vacuous: a STRING spelling a timestamp is read
+   into a time.Time by JSON, YAML and Cue and rejected by TOML. *)
+Theorem time_string_refuted :
+  let d := time_str_doc in      (* {"at": "2021-03-04T05:06:07Z"} for struct{ At time.Time `dials:"at"`; ... } *)
+  dec_ok time_pfs = true /\ no_fmt_fields time_pfs = true /\
+  time_free time_pfs = false /\ no_time_str d = false /\
+  map (fun f => class_of (decode f d time_pfs)) [FJson; FYaml; FToml; FCue] = [COk; COk; CErr; COk].
+Proof. exact time_string_refuted_l. Qed.
 
 (* The guard is not vacuous: a struct as map value is reached neither by the
    tag copy nor by the duration substitution (known finding C13/2). *)
@@ -51,11 +62,21 @@ Proof. exact absent_is_unset_l. Qed.
 (* Durations: a string of the duration grammar or integer nanoseconds, in
    every format (JSON and Cue see the substituted type). *)
 Theorem duration_forms : forall (f : format) (key : str -> list (str * str) -> str),
-  (forall s, keyed_decode (lib_native_dur f) key (DStr s) (dur_leaf_seen f) =
+  (forall s, keyed_decode (lib_native_time f) (lib_native_dur f) key (DStr s) (dur_leaf_seen f) =
              omap VPtr (omap VInt (parse_duration s))) /\
-  (forall z, keyed_decode (lib_native_dur f) key (DInt z) (dur_leaf_seen f) =
+  (forall z, keyed_decode (lib_native_time f) (lib_native_dur f) key (DInt z) (dur_leaf_seen f) =
              omap VPtr (decode_int 64 z)).
 Proof. exact duration_forms_l. Qed.
+
+(* Timestamps: a time.Time leaf is untouched by the dials side and read, in
+   every format, from the format's own way of writing a timestamp (TOML: its
+   datetime token, the others: a string) as the instant time.Parse(RFC3339)
+   gives (Sources/TimeText.v: time_value). *)
+Theorem time_forms : forall (f : format) (key : str -> list (str * str) -> str) (s : str),
+  subst_ty time_leaf = time_leaf /\
+  keyed_decode (lib_native_time f) (lib_native_dur f) key (own_time f s) time_leaf = omap VPtr (time_value s) /\
+  keyed_decode (lib_native_time f) (lib_native_dur f) key (DTime s) time_leaf = omap VPtr (time_value s).
+Proof. exact time_forms_l. Qed.
 
 (* Sets written as lists: with the set-slice wrapper (ez puts it around every
    file decoder) a set field is read from a list in every format. *)
@@ -78,5 +99,7 @@ Print Assumptions decoders_agree_all.
 Print Assumptions decoders_agree_refuted.
 Print Assumptions absent_is_unset.
 Print Assumptions duration_forms.
+Print Assumptions time_forms.
+Print Assumptions time_string_refuted.
 Print Assumptions error_is_total.
 Print Assumptions set_as_list.
